@@ -203,6 +203,15 @@ func genTree(r *simkit.RNG, sc *Scenario, k *knobs) {
 		}
 		extFiles = []string{"file", "dir/f", "chain1"}
 		extDirs = []string{"dir", "dirlink", "dir/sub", "emptyd"}
+		if simkit.NewRNG(sc.Seed, "pw/ext-far-chain").Chance(1, 3) {
+			// chains whose second link sits in another directory than the first and names its
+			// target relative to its own place
+			add(TNode{Root: "ext", Path: "shared", Kind: "dir", Mode: 0o755})
+			add(TNode{Root: "ext", Path: "shared/cur-file", Kind: "link", Target: "../file"})
+			add(TNode{Root: "ext", Path: "shared/cur-dir", Kind: "link", Target: "../dir"})
+			extFiles = append(extFiles, "shared/cur-file", "shared/cur-file")
+			extDirs = append(extDirs, "shared/cur-dir", "shared/cur-dir")
+		}
 		if k.extBack {
 			// links inside an out-of-tree directory: back into the tree (relative / absolute) and further out
 			switch r.Intn(4) {
@@ -646,7 +655,7 @@ func genRuns(r *simkit.RNG, sc *Scenario, k *knobs, profile string) {
 		}
 		sc.Runs = []PackRun{p}
 		if r.Chance(1, 10) {
-			sc.RulesKind = simkit.Pick(r, []string{"dir", "longline", "fifo"})
+			sc.RulesKind = simkit.Pick(r, []string{"dir", "longline", "fifo", "fifo-link"})
 		}
 		switch r.Intn(7) {
 		case 6:
@@ -710,6 +719,13 @@ func genRuns(r *simkit.RNG, sc *Scenario, k *knobs, profile string) {
 		} else if r.Chance(1, 6) {
 			sc.SharedPacker = true
 			sc.History = append(sc.History, "shared:fail@"+strconv.Itoa(simkit.Pick(r, []int{5, 300, 2000, 20000, 70000, 100000})))
+		}
+		if wr := simkit.NewRNG(sc.Seed, "pw/worn"); (sc.SharedPacker && sc.Opts.Deref && !sc.Opts.Legacy && wr.Chance(1, 2)) || (k.outLinks && wr.Chance(1, 15)) {
+			// a Packer that has been in service for a while: well over a hundred earlier calls,
+			// each of which followed a long chain of outside links
+			sc.SharedPacker = true
+			sc.Opts.Deref, sc.Opts.Legacy = true, false
+			sc.History = append(sc.History, "shared:worn")
 		}
 		if r.Chance(1, 3) {
 			sc.Conc = true
@@ -778,7 +794,7 @@ func genRuns(r *simkit.RNG, sc *Scenario, k *knobs, profile string) {
 		}
 		sc.Runs = []PackRun{p}
 		if k.rules && r.Chance(1, 4) {
-			sc.RulesKind = simkit.Pick(r, []string{"dir", "longline", "fifo"})
+			sc.RulesKind = simkit.Pick(r, []string{"dir", "longline", "fifo", "fifo-link"})
 		}
 	}
 }
